@@ -617,6 +617,10 @@ fn execute_dynamic_per_worker(
     shards: &[super::shard::VirtualShard],
     workers: usize,
 ) -> Vec<TickDelta> {
+    // Verification seam: route this executor's claim counter through the controllable shim.
+    #[cfg(feature = "echo_verif")]
+    use crate::verif_hooks::rt::AtomicUsize;
+
     let next_shard = AtomicUsize::new(0);
 
     std::thread::scope(|s| {
@@ -655,6 +659,10 @@ fn execute_dynamic_per_shard(
     shards: &[super::shard::VirtualShard],
     workers: usize,
 ) -> Vec<TickDelta> {
+    // Verification seam: route this executor's claim counter through the controllable shim.
+    #[cfg(feature = "echo_verif")]
+    use crate::verif_hooks::rt::AtomicUsize;
+
     let next_shard = AtomicUsize::new(0);
 
     std::thread::scope(|s| {
@@ -914,6 +922,10 @@ pub fn execute_work_queue<'state, F>(
 where
     F: Fn(&WarpId) -> Option<&'state GraphStore> + Sync,
 {
+    // Verification seam: route this executor's claim counter through the controllable shim.
+    #[cfg(feature = "echo_verif")]
+    use crate::verif_hooks::rt::AtomicUsize;
+
     assert!(workers > 0, "workers must be > 0");
 
     if units.is_empty() {
